@@ -456,6 +456,65 @@ def _canon(ev, strict_cfg):
     return strip(ev)
 
 
+SOAK = [("gen", "inputs", "TraceGen.tla", "TraceGen.cfg"), ("gen", "hist12", "TraceGen.tla", "TraceGen.cfg"), ("gen", "stream", "TraceGen.tla", "TraceGen.cfg"),
+        ("cmp", "pairs", "TraceCmp.tla", "TraceCmp.cfg"), ("cmp", "ed", "TraceCmp.tla", "TraceCmp.cfg"), ("cmp", "sub", "TraceCmp.tla", "TraceCmp.cfg"),
+        ("cmp", "ss", "TraceCmp.tla", "TraceCmp.cfg"), ("cmp", "reuse", "TraceCmp.tla", "TraceCmp.cfg"), ("cmp", "tables", "TraceCmp.tla", "TraceCmp.cfg"),
+        ("obj", "parse", "TraceObj.tla", "TraceObj.cfg"), ("obj", "fmt", "TraceObj.tla", "TraceObj.cfg"), ("obj", "norm", "TraceObj.tla", "TraceObj.cfg"),
+        ("obj", "dual", "TraceObj.tla", "TraceObj.cfg"), ("obj", "ord", "TraceObj.tla", "TraceObj.cfg"), ("obj", "hist", "TraceObj.tla", "TraceObj.cfg"),
+        ("obj", "ctor", "TraceObj.tla", "TraceObj.cfg"), ("hashes", "all", "TraceHash.tla", "TraceHash.cfg")]
+
+
+def _debug_soak(v, pid, tier):
+    import re
+    binp = os.path.join(BUILD, "bin", "verif-harness-default-debug")      # built a moment ago by check_c14
+    if not os.path.exists(binp):
+        binp = _build_config("default", [], False, "debug")
+    marker = re.compile(r'panic')
+    total_events = 0
+    total_units = 0
+    picked_units = 0
+    by_spec = {}
+    for fam, mode, mod, cfg in SOAK:
+        out = fresh_dir("tr_C14_soak_%s_%s" % (fam, mode))
+        run_harness(binp, [fam, mode, "--seed", str(seed()), "--tier", "quick", "--out", out, "--shards", "4"], timeout=3000)
+        sel = os.path.join(out, "selected.ndjson.sel")
+        with open(sel, "w") as w:
+            for fpath in sorted(glob.glob(os.path.join(out, "*.ndjson"))):
+                unit, hit = [], False
+                def flush():
+                    nonlocal picked_units
+                    if unit and hit:
+                        picked_units += 1
+                        w.writelines(unit)
+                for line in open(fpath):
+                    total_events += 1
+                    if '"unit":1' in line[:12] or '"unit": 1' in line[:14]:
+                        flush()
+                        unit, hit = [], False
+                        total_units += 1
+                    unit.append(line)
+                    if marker.search(line.replace('"panics":0', "")):
+                        hit = True
+                flush()
+        if os.path.getsize(sel) > 0:
+            dst = os.path.join(out, "selected_%s_%s.ndjson" % (fam, mode))
+            os.rename(sel, dst)
+            by_spec.setdefault((mod, cfg), []).append(dst)
+    nrej = 0
+    for (mod, cfg), files in by_spec.items():
+        res = run_tv(mod, cfg, files, timeout=3000)
+        v.add_tv("C14-debug-soak:" + mod, res)
+        cache = {}
+        for r in res:
+            if not r["accepted"]:
+                nrej += 1
+                evs = cache.setdefault(r["file"], read_events(r["file"]))
+                k = r["rejected_at"]
+                v.violation("default features WITH debug assertions: trace rejected at event %d of %s: %s ; %s" % (k, os.path.basename(r["file"]), json.dumps(evs[k - 1])[:400], (r["mismatch"] or [""])[0][:500]),
+                            {"family": "c14", "property": pid, "config": "default/debug soak", "events": [evs[k - 1]], "spec": r["mismatch"][:1]})
+    return {"events_executed_with_debug_assertions": total_events, "units": total_units, "units_with_a_panic_validated_by_tlc": picked_units, "rejected": nrej}
+
+
 def check_c14(pid, tier):
     v = Verdict(pid, tier)
     profiles = [("release", C14_CONFIGS + (C14_EXTRA if tier == "thorough" else [])), ("debug", C14_CONFIGS if tier == "thorough" else C14_CONFIGS[:1])]
@@ -489,6 +548,13 @@ def check_c14(pid, tier):
                     conf = os.path.basename(os.path.dirname(r["file"]))
                     v.violation("configuration %s: trace rejected at event %d of %s: %s ; %s" % (conf, k, os.path.basename(r["file"]), json.dumps(evs[k - 1])[:400], (r["mismatch"] or [""])[0][:500]),
                                 {"family": "c14", "property": pid, "config": conf, "events": [evs[k - 1]], "spec": r["mismatch"][:1]})
+    # (1b) "with or without debug assertions ... over the shared input corpus of the other properties":
+    # the default feature set built WITH debug assertions and overflow checks runs the quick drivers
+    # of the other families; every unit (independent history) in which the library panicked anywhere
+    # is validated by TLC like any other trace (constructor contract panics are expected and
+    # accepted; anything else is rejected).  Units without a panic differ from the release run of
+    # the other checks only by the build, and the slices above already compare those event by event.
+    soak = _debug_soak(v, pid, tier)
     # (2) the transcripts are the same in every configuration (up to configuration-specific entries)
     base = runs[0][2]
     ndiff = 0
@@ -512,6 +578,7 @@ def check_c14(pid, tier):
     v.cov["distinct_nontrivial"] = len(runs)
     v.cov["configurations"] = ["%s/%s" % (n, p) for n, p, _ in runs]
     v.cov["transcript_differences"] = ndiff
+    v.cov["debug_soak"] = soak
     v.cov["rule"] = "one seeded scenario slice of every family (generator corner grid + histories, comparison pairs, parse/normalise/dual/format/order/histories/constructors incl. the *_unchecked entry points where the checked ones accepted the arguments, hash primitives) run by one harness binary per build configuration; every trace validated against the same specification (STRICT = TRUE for strict-parser) and compared event by event with default/release. non-trivial = configurations"
     evs = read_events(sorted(glob.glob(os.path.join(base, "*.ndjson")))[0])
     v.cov["samples"] = [json.dumps(e)[:400] for e in evs[:2]]
